@@ -10,6 +10,7 @@ pairs of a random DAG, exact bounds.
 import numpy as np
 
 from tflv import core
+from tflv import modes
 from tflv.gen import graphs
 
 PROPERTY = "C06"
@@ -110,7 +111,8 @@ def gen_cases(ctx):
       yield {"kind": "linear", "n": n, "units": units, "mono": mono, "mdom": mdom, "rdom": rdom,
              "imin": imin, "imax": imax, "order": order, "kclass": kclass, "w": w.tolist(),
              "mode": str(rng.choice(["random", "random", "feasible"])),
-             "labels": ["mono:" + mode, "mdom:" + mk, "rdom:" + rk, "norm:%s" % order]}
+             "labels": ["mono:" + mode, "mdom:" + mk, "rdom:" + rk, "norm:%s" % order],
+             "exec": modes.pick(rng, (0.7, 0.3, 0.0), allow=("eager", "graph"))}
     else:
       nb = int(rng.randint(1, 9))
       pairs, gk = ([], "none")
@@ -126,7 +128,8 @@ def gen_cases(ctx):
       yield {"kind": "categorical", "nb": nb, "units": units, "pairs": [list(p) for p in pairs],
              "omin": omin, "omax": omax, "kclass": kclass, "w": w.tolist(),
              "mode": str(rng.choice(["random", "random", "feasible"])),
-             "labels": ["graph:" + gk, "bounds:" + b]}
+             "labels": ["graph:" + gk, "bounds:" + b],
+             "exec": modes.pick(rng, (0.7, 0.3, 0.0), allow=("eager", "graph"))}
 
 
 def lin_violation(case, w):
@@ -184,6 +187,7 @@ def _lin_feasible(rng, case):
 def run_case(ctx, case):
   tf, lin, cat = _ensure()
   ctx.cls("kind:" + case["kind"], "units:%d" % case["units"], "weights:" + case["kclass"], "mode:" + case["mode"], *case["labels"])
+  ctx.cls("exec:" + case.get("exec", "eager"))
   if case["kind"] == "linear":
     return _run_linear(ctx, case, tf, lin)
   return _run_categorical(ctx, case, tf, cat)
@@ -199,7 +203,8 @@ def _run_linear(ctx, case, tf, lin):
       monotonicities=case["mono"], monotonic_dominances=[tuple(p) for p in case["mdom"]] or None,
       range_dominances=[tuple(p) for p in case["rdom"]] or None,
       input_min=case["imin"], input_max=case["imax"], normalization_order=case["order"])
-  out = c(tf.constant(w)).numpy()
+  ex = case.get("exec", "eager")
+  out = modes.call(tf, ex, c, tf.constant(w)).numpy()
   site = "LinearConstraints.__call__"
   ok_fin = bool(np.all(np.isfinite(out)))
   ctx.check(site + "/finite", ok_fin, "non-finite weights returned")
@@ -237,7 +242,7 @@ def _run_linear(ctx, case, tf, lin):
               info={"entry": site, "moved": d}, ratio=d / t)
   else:
     # idempotence on its own (feasible) output
-    out2 = c(tf.constant(out)).numpy()
+    out2 = modes.call(tf, ex, c, tf.constant(out)).numpy()
     d = float(np.abs(out2.astype(np.float64) - out).max())
     t = 1e-4 * scale
     ctx.check("feasible-unchanged", d <= t, "%s moved its own output by %.3g (tol %.3g)" % (site, d, t),
@@ -278,7 +283,8 @@ def _run_categorical(ctx, case, tf, cat):
     case["w"] = w.tolist()
   c = cat.CategoricalCalibrationConstraints(output_min=omin, output_max=omax,
                                             monotonicities=[tuple(p) for p in case["pairs"]] or None)
-  out = c(tf.constant(w)).numpy()
+  ex = case.get("exec", "eager")
+  out = modes.call(tf, ex, c, tf.constant(w)).numpy()
   site = "CategoricalCalibrationConstraints.__call__"
   scale = core.scale_of(w, out)
   tol = core.REL_TOL * scale
@@ -297,7 +303,7 @@ def _run_categorical(ctx, case, tf, cat):
   inb = (omin is None or w.min() >= core.f32(omin)) and (omax is None or w.max() <= core.f32(omax))
   feasible = vi <= 0 and inb
   ref = w if feasible else out
-  out2 = out if feasible else c(tf.constant(out)).numpy()
+  out2 = out if feasible else modes.call(tf, ex, c, tf.constant(out)).numpy()
   d = float(np.abs(out2.astype(np.float64) - ref).max())
   t = 1e-4 * scale
   ctx.check("feasible-unchanged", d <= t, "%s moved %s by %.3g (tol %.3g)" % (site, "feasible weights" if feasible else "its own output", d, t),
